@@ -17,6 +17,29 @@ def sh(cmd, cwd=None, timeout=1800):
     p = subprocess.run(cmd, shell=True, cwd=cwd, env=env, stdout=subprocess.PIPE, stderr=subprocess.STDOUT, text=True, timeout=timeout)
     return p.returncode, p.stdout
 
+def run_suite(cmd, cwd, xml, timeout=3000, grace=90):
+    """Run the suite; pytest sometimes hangs at interpreter exit on a non-daemon thread after the junit file is written:
+    once the xml exists and is `grace` seconds old, kill the process group."""
+    import signal, time
+    env = dict(os.environ, PYTHONPATH=cwd)
+    p = subprocess.Popen(cmd, shell=True, cwd=cwd, env=env, stdout=subprocess.DEVNULL, stderr=subprocess.DEVNULL, start_new_session=True)
+    t0 = time.time()
+    while p.poll() is None:
+        time.sleep(5)
+        done = os.path.exists(xml) and os.path.getsize(xml) > 0 and time.time() - os.path.getmtime(xml) > grace
+        if done or time.time() - t0 > timeout:
+            try:
+                os.killpg(p.pid, signal.SIGKILL)
+            except ProcessLookupError:
+                pass
+            subprocess.run("pkill -KILL -f %s" % xml, shell=True)
+            break
+    try:
+        p.wait(30)
+    except Exception:
+        pass
+
+
 def main():
     seed = os.path.abspath(sys.argv[1])
     suite = "--no-suite" not in sys.argv
@@ -47,7 +70,7 @@ def main():
             base = json.load(open("/root/.vp/BASELINE.json"))
             xml = os.path.join(wt, "_run.xml")
             # private network namespace: the suite opens fixed TCP ports and other runs share this machine
-            sh(f"unshare -rn sh -c 'ip link set lo up; /venv/bin/python -m pytest -ra -q -p no:cacheprovider --timeout=900 --continue-on-collection-errors --junitxml={xml}'", cwd=wt, timeout=3000)
+            run_suite(f"unshare -rn sh -c 'ip link set lo up; /venv/bin/python -m pytest -ra -q -p no:cacheprovider --timeout=900 --continue-on-collection-errors --junitxml={xml}'", wt, xml)
             passed = set()
             for tc in ET.parse(xml).iter("testcase"):
                 if not any(ch.tag in ("failure", "error", "skipped") for ch in tc):
